@@ -87,6 +87,10 @@ harnesses! {
         let mut prev = 0.0;
         for _ in 0..2 { v.update(positive(s)); let o = v.last().unwrap(); s.check(o >= prev && o >= 0.0 && o < 1.0, "Drawdown in [0,1) and non-decreasing for positive inputs"); prev = o; }
     }
+    c07_welford_online_nonneg_n2 [8] (s) {
+        let mut v = WelfordOnline::new(Echo::new(), 2);
+        for _ in 0..4 { v.update(input(s)); if let Some(o) = v.last() { s.check(o >= 0.0, "WelfordOnline >= 0 (never negative, never NaN) on f64"); } }
+    }
     // ---------------- C12: Min/Max commute bit-exactly with a power-of-two scale and with negation ------------
     c12_minmax_pow2_and_negation [7] (s) {
         let (mut a, mut b, mut c) = (Min::new(Echo::new(), 2), Min::new(Echo::new(), 2), Max::new(Echo::new(), 2));
